@@ -25,6 +25,31 @@ func monoidLaws[T any](m fp.Monoid[T], a, b, c T, eq func(x, y T) bool, l string
 	zz.Assert(eq(m.Combine(a, m.Empty()), a), l+": Empty is a right identity")
 }
 
+// results are values: a later Combine that shares an operand with an earlier one changes neither the earlier
+// result nor the operands (x·d stays x++d however often x is combined again)
+func valueLaws[T any](m fp.Semigroup[T], a, b, c T, eq func(x, y T) bool, snap func(T) T, l string) {
+	a0, b0, c0 := snap(a), snap(b), snap(c)
+	ab := m.Combine(a, b)
+	ab0 := snap(ab)
+	ac := m.Combine(a, c)
+	ac0 := snap(ac)
+	abc := m.Combine(ab, c)
+	abc0 := snap(abc)
+	abb := m.Combine(ab, b)
+	abb0 := snap(abb)
+	zz.Assert(eq(ab, ab0) && eq(ac, ac0), l+": an earlier result is unchanged by a later Combine with the same left operand")
+	zz.Assert(eq(abc, abc0) && eq(abb, abb0), l+": results built on a shared intermediate result stay intact")
+	zz.Assert(eq(a, a0) && eq(b, b0) && eq(c, c0), l+": Combine does not modify its operands")
+	zz.Assert(eq(m.Combine(a, b), ab0) && eq(m.Combine(ab0, c), abc0), l+": Combine is a function of the operand values")
+}
+
+func snapSlice(x []int) []int {
+	if x == nil {
+		return nil
+	}
+	return append([]int{}, x...)
+}
+
 func eqInt(x, y int) bool   { return x == y }
 func eqBool(x, y bool) bool { return x == y }
 func eqStr(x, y string) bool { return x == y }
@@ -164,6 +189,18 @@ func VH_c11_merge_seq_slice() {
 	monoidLaws(monoid.MergeSlice[int](), a, b, c, sliceEq, "MergeSlice")
 	ab := monoid.MergeSlice[int]().Combine(a, b)
 	zz.Assert(sliceEq(ab, append(append([]int{}, a...), b...)), "MergeSlice concatenates left then right")
+}
+
+func VH_c11_merge_seq_slice_values() {
+	n := zz.Bound("seqlen", 2, 2)
+	a, b, c := zz.SliceInt("a", n, 2, 0), zz.SliceInt("b", n, 1, 0), zz.SliceInt("c", n, 1, 0)
+	eqSeq := func(x, y fp.Seq[int]) bool { return sliceEq(x, y) }
+	snapSeq := func(x fp.Seq[int]) fp.Seq[int] { return snapSlice(x) }
+	if zz.Bool("seq") {
+		valueLaws[fp.Seq[int]](monoid.MergeSeq[int](), fp.Seq[int](a), fp.Seq[int](b), fp.Seq[int](c), eqSeq, snapSeq, "MergeSeq")
+	} else {
+		valueLaws[[]int](monoid.MergeSlice[int](), a, b, c, sliceEq, snapSlice, "MergeSlice")
+	}
 }
 
 func mkMap(name string, n int) map[int]int {
